@@ -445,6 +445,28 @@ export class SchemaPrintingContext {
     delete this.inProgressDefinitions[name];
   }
 
+  /** State of the definition store, to undo a print that throws half-way. */
+  snapshotDefinitions(): {
+    collected: Record<string, JSONSchema7Definition>;
+    inProgress: Record<string, boolean>;
+  } {
+    return { collected: { ...this.collectedDefinitions }, inProgress: { ...this.inProgressDefinitions } };
+  }
+
+  restoreDefinitions(snapshot: {
+    collected: Record<string, JSONSchema7Definition>;
+    inProgress: Record<string, boolean>;
+  }): void {
+    for (const name of Object.keys(this.collectedDefinitions)) {
+      delete this.collectedDefinitions[name];
+    }
+    Object.assign(this.collectedDefinitions, snapshot.collected);
+    for (const name of Object.keys(this.inProgressDefinitions)) {
+      delete this.inProgressDefinitions[name];
+    }
+    Object.assign(this.inProgressDefinitions, snapshot.inProgress);
+  }
+
   exportDefinitions():
     | Record<string, JSONSchema7Definition>
     | Record<string, Record<string, JSONSchema7Definition>> {
@@ -2465,7 +2487,16 @@ class ParserFromRuntype implements BeffParser<any> {
       mode: "contextual" as const,
       printingContext: schemaPrintingContext,
     };
-    return this._runtype.schema(ctx);
+    // A type that cannot be printed (Date, bigint, Map, ...) throws in the middle of a named
+    // body: leave the shared context as it was, not with an in-progress mark and definitions
+    // that point at a body which will never be stored.
+    const snapshot = schemaPrintingContext.snapshotDefinitions();
+    try {
+      return this._runtype.schema(ctx);
+    } catch (e) {
+      schemaPrintingContext.restoreDefinitions(snapshot);
+      throw e;
+    }
   }
   describe(): string {
     const ctx: DescribeContext = {
